@@ -16,7 +16,7 @@ use tantivy::directory::{
     WatchHandle, WritePtr,
 };
 use tantivy::collector::TopDocs;
-use tantivy::query::TermQuery;
+use tantivy::query::{BooleanQuery, ConstScoreQuery, Occur, Query, TermQuery};
 use tantivy::schema::{IndexRecordOption, Schema, STORED, STRING, TEXT};
 use tantivy::{doc, Index, IndexWriter, ReloadPolicy, Term};
 
@@ -273,6 +273,43 @@ fn main() -> tantivy::Result<()> {
         Ok(all[0].1 == top1[0].1)
     })();
     rec.api("top1_basic_multivalued", matches!(r2, Ok(true)));
+    // third scenario: ties on the sort key across three segments must be broken by ascending
+    // document address whatever order each segment hands its local top-K over in
+    // (limit 4; segments: 6 docs with 2 hits of score 0.5; 5 docs with scores 9,9,9,0.5; 4 docs all 1.0)
+    let r3 = (|| -> tantivy::Result<bool> {
+        let mut sb = Schema::builder();
+        let tag = sb.add_text_field("tag", STRING);
+        let index = Index::create_in_ram(sb.build());
+        let mut w: IndexWriter = index.writer_with_num_threads(1, 50_000_000)?;
+        w.set_merge_policy(Box::new(tantivy::indexer::NoMergePolicy));
+        for t in ["x", "x", "x", "z", "w"] {
+            w.add_document(doc!(tag => t))?;
+        }
+        w.commit()?;
+        for t in ["z", "z", "w", "w", "w", "w"] {
+            w.add_document(doc!(tag => t))?;
+        }
+        w.commit()?;
+        for t in ["y", "y", "y", "y"] {
+            w.add_document(doc!(tag => t))?;
+        }
+        w.commit()?;
+        let searcher = index.reader()?.searcher();
+        let c = |t: &str, s: f32| -> (Occur, Box<dyn Query>) {
+            (
+                Occur::Should,
+                Box::new(ConstScoreQuery::new(
+                    Box::new(TermQuery::new(Term::from_field_text(tag, t), IndexRecordOption::Basic)),
+                    s,
+                )),
+            )
+        };
+        let q = BooleanQuery::new(vec![c("x", 9.0), c("y", 1.0), c("z", 0.5)]);
+        let all = searcher.search(&q, &TopDocs::with_limit(100).order_by_score())?;
+        let top4 = searcher.search(&q, &TopDocs::with_limit(4).order_by_score())?;
+        Ok(searcher.segment_readers().len() == 3 && all[..4] == top4[..])
+    })();
+    rec.api("topk_tie_break_multi_segment", matches!(r3, Ok(true)));
     for l in rec.log.lock().unwrap().iter() {
         println!("{}", l);
     }
